@@ -6,6 +6,7 @@ over all sequences of runs {2 groups} x {new, reused instance} x {methods} x {cl
 history is replayed with a fake clock into real CsvPaths instances: after each run the archive
 tree is projected (new directory = the one the spec names, every file of every earlier run
 byte-identical) and $g.results.<prefix>:last/:first references are resolved."""
+import gc
 import json
 import os
 
@@ -17,6 +18,7 @@ INVS = ["FreshDir", "DenseIdx", "Chronological", "LastIsNewest"]
 PROPS = ["EarlierUntouched"]
 START = 12 * 3600 + 59 * 60 + 55   # 12:59:55 on day 0
 DATALESS = ("fast_forward_paths", "fast_forward_by_line")
+ABANDON = "!abandon"
 
 
 def _cfg(methods, maxlen, emit=False, view=False, moves=("same", "plus1", "to13", "midnight")):
@@ -64,6 +66,7 @@ def _replay(hist):
                 setup.paths_manager.add_named_paths(name=g, paths=ps)
             shared = None
             earlier = {}   # (g, dirname) -> tree hashes
+            abandoned = set()
             done = []
             for i, step in enumerate(hist):
                 clock.t = step["run"]["t"]
@@ -76,7 +79,15 @@ def _replay(hist):
                 g = step["g"]
                 ops = [{k: s[k] for k in ("mv", "inst", "g", "m")} for s in hist[: i + 1]]
                 try:
-                    pharness.run_method(cp, step["m"], g, "data")
+                    if step["m"].endswith(ABANDON):
+                        # the caller takes the first line of a next_* run and walks away: the run never reaches its end
+                        it = getattr(cp, step["m"][: -len(ABANDON)])(pathsname=g, filename="data", collect=True)
+                        next(it, None)
+                        it.close()
+                        del it
+                        gc.collect()
+                    else:
+                        pharness.run_method(cp, step["m"], g, "data")
                 except Exception as e:
                     import traceback
 
@@ -92,11 +103,18 @@ def _replay(hist):
                 # (2) every file of every earlier run is byte-identical
                 for (gg, dn), hashes in earlier.items():
                     now = pharness.tree_hashes(os.path.join(archive, gg, dn))
+                    if (gg, dn) in abandoned:
+                        # the line files of an abandoned run are still open in the instance that holds its results: when they are
+                        # flushed is that run's own business; every other file of it must stay as it was
+                        now = {k: v for k, v in now.items() if os.path.basename(k) not in ("data.csv", "unmatched.csv")}
+                        hashes = {k: v for k, v in hashes.items() if os.path.basename(k) not in ("data.csv", "unmatched.csv")}
                     if now != hashes:
                         changed = sorted(set(k for k in set(now) | set(hashes) if now.get(k) != hashes.get(k)))
                         return {"kind": "rundirs", "step": i, "ops": ops, "what": f"earlier run {gg}/{dn} was modified", "files": changed}
                 dn = _dirname(step["run"])
                 earlier[(g, dn)] = pharness.tree_hashes(os.path.join(archive, g, dn))
+                if step["m"].endswith(ABANDON):
+                    abandoned.add((g, dn))
                 # (3) :last / :first resolution
                 for gg in GROUPS:
                     if not any(r["g"] == gg for r in done):
@@ -110,6 +128,8 @@ def _replay(hist):
                             # a run made by a fast-forward method collects no lines: it has a run directory like any other (and is the
                             # most recent run while it is), but no data.csv a reference could be resolved to
                             with_data = sorted(_dirname(done[j - 1]) for j in idxs if hist[j - 1]["m"] not in DATALESS)
+                            # an abandoned run may or may not have collected a line before the caller left
+                            sure = [d for j, d in ((j, _dirname(done[j - 1])) for j in idxs) if hist[j - 1]["m"] not in DATALESS and not hist[j - 1]["m"].endswith(ABANDON)]
                             ref = f"${gg}.results.{_prefix(p, step['run']['t'])}:{which}.m1"
                             # whoever asks gets the same answer: the instance that just ran, the long-lived instance that ran
                             # earlier (if any), and an instance that never runs anything
@@ -119,7 +139,7 @@ def _replay(hist):
                                 try:
                                     path = asker.file_manager.get_named_file(ref)
                                 except Exception as e:
-                                    if len(with_data) < len(admissible):
+                                    if len(sure) < len(admissible):
                                         continue      # the most recent (earliest) run has no data to resolve to: the reference fails rather than answer with another run
                                     return {"kind": "rundirs", "step": i, "ops": ops, "what": f"reference {ref} raised (asked by {who})", "raised": f"{type(e).__name__}: {e}", "admissible": admissible}
                                 parts = path.split(os.sep)
@@ -194,6 +214,13 @@ def main(tier):
     r5 = require_ok(run_tlc("RunDirs", "_gen_RD_nodata.cfg", timeout=900, keep_stdout=False), "RunDirs nodata")
     rep.add_tlc("RunDirs all histories of length 3 of collecting and fast-forward runs, one second apart (references over runs without data)", r5)
     hists += list(r5.records)
+    # runs that never reach their end (the caller abandons a next_* generator after its first line) among complete runs: the
+    # next run, on the same or another instance, still gets its own directory under its own group
+    with open(os.path.join(spec, "_gen_RD_abandon.cfg"), "w") as f:
+        f.write(_cfg(["collect_paths", "next_paths" + ABANDON] + ([] if tier == "quick" else ["next_by_line" + ABANDON]), 3, emit=True, moves=("same", "plus1")))
+    r6 = require_ok(run_tlc("RunDirs", "_gen_RD_abandon.cfg", timeout=900, keep_stdout=False), "RunDirs abandon")
+    rep.add_tlc("RunDirs all histories of length 3 of complete and abandoned runs, same second or one second apart", r6)
+    hists += list(r6.records)
     with open(os.path.join(spec, "_gen_RD_sim.cfg"), "w") as f:
         f.write(_cfg(["collect_paths", "collect_by_line", "next_paths", "next_by_line"], sim[1], emit=True))
     r3 = require_ok(run_tlc("RunDirs", "_gen_RD_sim.cfg", timeout=600, keep_stdout=False, workers=1,
